@@ -87,7 +87,7 @@ def get_gender(number):
 
 def get_region(number):
     """Return (political) region from valid EMŠO."""
-    return number[7:9]
+    return compact(number)[7:9]
 
 
 def validate(number):
